@@ -248,11 +248,38 @@ func checkC07(w *World, r *Report) {
 			s := e.Site
 			a := s.Args()
 			ectx := e.Ctx()
-			amt := a[len(a)-1]
 			from := ResolveUp(a[1], ectx)
-			o := tr.OriginsVia(e, amt, nil)
+			// the values the amount can take for THIS handler: constants the handler fixes (a mode flag in an options
+			// struct) decide the branches of the shared body and of the helper that computes the amount
+			evalAt := EvalAlong(ConstEval, e.Chain)
+			dvs := w.LiveValuesDeepCtx(s.Caller, evalAt, a[len(a)-1], 2, ectx)
+			o := newOrigin()
+			var amtVals []DeepVal
+			for _, dv := range dvs {
+				amtVals = append(amtVals, dv)
+				od := dv.Origins(tr)
+				for k, l := range od.Leaves {
+					o.Leaves[k] = l
+				}
+				for k := range od.Ops {
+					o.Ops[k] = true
+				}
+				for k := range od.Calls {
+					o.Calls[k] = true
+					if _, have := o.CallCtx[k]; !have {
+						o.CallCtx[k] = od.CallCtx[k]
+					}
+				}
+				for k := range od.Phis {
+					o.Phis[k] = true
+				}
+				for k := range od.Values {
+					o.Values[k] = true
+				}
+				o.Truncated = o.Truncated || od.Truncated
+			}
 			lcs := o.CallsNamed("BankKeeper.LockedCoins")
-			ok := len(lcs) >= 1
+			ok := len(lcs) >= 1 && len(dvs) > 0
 			for _, lc := range lcs {
 				// the locked coins of the very account handed to the split (both expressed in the terms of the function
 				// that holds the address: a helper or a function literal computing the amount receives it as a parameter)
@@ -318,24 +345,29 @@ func checkC07(w *World, r *Report) {
 					}
 				}
 			} else {
-				// the amount IS the locked coins: nothing but that one call (and the nil of an error return) on its slice
-				t2 := *tr
-				t2.Stop = []string{"BankKeeper.LockedCoins"}
-				o2 := t2.OriginsVia(e, amt, nil)
-				exact := len(lcs) == 1 && !o2.Truncated
-				for op := range o2.Ops {
-					if !strings.HasSuffix(op, "BankKeeper.LockedCoins") {
+				// the amount IS the locked coins: every value it can take is that one call (or the nil of an error return)
+				exact := len(lcs) == 1
+				for _, dv := range amtVals {
+					t2 := *tr
+					t2.Stop = []string{"BankKeeper.LockedCoins"}
+					o2 := dv.Origins(&t2)
+					if o2.Truncated {
 						exact = false
 					}
-				}
-				for _, l := range o2.Leaves {
-					if l.Kind == "call" && len(lcs) == 1 && l.V == ssa.Value(lcs[0]) {
-						continue
+					for op := range o2.Ops {
+						if !strings.HasSuffix(op, "BankKeeper.LockedCoins") {
+							exact = false
+						}
 					}
-					if k, isK := l.V.(*ssa.Const); isK && l.Kind == "const" && k.Value == nil {
-						continue
+					for _, l := range o2.Leaves {
+						if l.Kind == "call" && len(lcs) == 1 && l.V == ssa.Value(lcs[0]) {
+							continue
+						}
+						if k, isK := l.V.(*ssa.Const); isK && l.Kind == "const" && k.Value == nil {
+							continue
+						}
+						exact = false
 					}
-					exact = false
 				}
 				ok = ok && exact
 			}
